@@ -54,6 +54,91 @@ def item_scoped(t):
         return False
 
 
+def carried_state(b, lp):
+    """user locals whose value at the loop's head is looked at inside the loop: set before the loop and inside it, and read on some way from the head that
+    passes no plain re-initialisation first. A commutative update of the local by itself (`n += 1`, `seen |= x`) is neither a look nor a re-initialisation:
+    the final value does not depend on the order. What such a local holds at an element depends on which elements came first"""
+    import prep as _p
+    out = []
+    COMMUT = ("Add", "AddWithOverflow", "AddUnchecked", "BitOr", "BitAnd", "BitXor", "Mul", "MulWithOverflow")
+    if lp.head is None:
+        return out
+    for l in range(1, len(b.locals)):
+        if not b.locals[l].get("user"):
+            continue
+        ds = [d for d in b.defs.get(l, []) if d[2] == []]
+        if not any(d[0] in lp.blocks for d in ds) or not any(d[0] not in lp.blocks for d in ds):
+            continue
+        own = {l}  # l and the temporaries that only carry `l (op) x` back into l
+        events = {}
+        for bb in sorted(lp.blocks):
+            blk = b.blocks[bb]
+            ev = []
+            for st in blk["stmts"]:
+                if st["k"] != "assign":
+                    continue
+                acc = set()
+                _p.locals_in(st["rv"], acc)
+                dst = st["p"]["l"]
+                if not (acc & own):
+                    if dst == l and not st["p"]["pr"]:
+                        ev.append(("kill", 0))
+                    continue
+                if st["rv"]["k"] == "bin" and st["rv"].get("op") in COMMUT and (dst == l or not b.locals[dst].get("user")):
+                    own.add(dst)
+                    continue
+                if st["rv"]["k"] == "use" and dst == l:
+                    continue
+                ev.append(("read", st.get("loc", {}).get("line", blk.get("tloc", {}).get("line", 0))))
+            t = blk["term"]
+            if t["k"] != "assert":
+                acc = set()
+                _p.locals_in({k: v for (k, v) in t.items() if k != "dest"}, acc)
+                if l in acc:
+                    ev.append(("read", blk.get("tloc", {}).get("line", 0)))
+                if t["k"] == "call" and t.get("dest") and t["dest"]["l"] == l and not t["dest"]["pr"]:
+                    ev.append(("kill", 0))
+            events[bb] = ev
+        seen, st_, hit = set(), [lp.head], None
+        while st_ and hit is None:
+            x = st_.pop()
+            if x in seen or x not in lp.blocks:
+                continue
+            seen.add(x)
+            killed = False
+            for (k, line) in events.get(x, []):
+                if k == "read":
+                    hit = line
+                    break
+                killed = True
+                break
+            if hit is None and not killed:
+                st_.extend(y for (y, _) in b.succ[x] if y != lp.head)
+        if hit is not None:
+            out.append((l, "line %s" % hit))
+    return out
+
+
+def _read_outside(body, l, lp):
+    """the local is looked at outside the loop (after it: its final value is a quantity over all the elements)"""
+    import prep as _p
+    for bb in body.reach:
+        if bb in lp.blocks:
+            continue
+        blk = body.blocks[bb]
+        for st in blk["stmts"]:
+            if st["k"] == "assign":
+                acc = set()
+                _p.locals_in(st["rv"], acc)
+                if l in acc:
+                    return True
+        acc = set()
+        _p.locals_in({k: v for (k, v) in blk["term"].items() if k != "dest"}, acc)
+        if l in acc:
+            return True
+    return False
+
+
 def check_body(rule, crate, body, label):
     """obligations for one detector body (and nothing else): carried state / exits / roots"""
     obs = []
@@ -64,14 +149,15 @@ def check_body(rule, crate, body, label):
         where = lp.site.where
         # loop-carried mutable locals: defined outside, written inside, read inside
         carried = []
+        live = {l for (l, _how) in carried_state(body, lp)}
         for l in range(1, len(body.locals)):
             ds = [d for d in body.defs.get(l, []) if d[2] == []]
             if len(ds) < 2 or not body.locals[l]["user"]:
                 continue
             inside = [d for d in ds if d[0] in lp.blocks]
             outside = [d for d in ds if d[0] not in lp.blocks]
-            if inside and outside:
-                # written in the loop and initialised outside: is it read inside (other than by its own update)?
+            if inside and outside and (l in live or _read_outside(body, l, lp)):
+                # written in the loop and initialised outside, and either looked at inside before it is re-initialised or looked at after the loop
                 carried.append(l)
         if filewide:
             pos = [c[1].rsplit("::", 1)[-1] for c in T.calls_in(it) if c[1].startswith("std::iter::Iterator::")
